@@ -46,7 +46,8 @@ Inductive outcome :=
 (* what processing the entries of one response decides *)
 Inductive step_res :=
 | Bogus                              (* return [] *)
-| Exc                                (* an entry could not be parsed: exception *)
+| Exc (code : Z)                     (* an exception leaves the loop: -1 an entry could not be parsed,
+                                        c >= 0 an ATT error on a nested read, -3 no response to it *)
 | Stop (acc : list entry)            (* return the services found (discover_service, end = 0xFFFF) *)
 | Next (acc : list entry) (start' : Z).
 
@@ -58,7 +59,7 @@ Fixpoint proc_group (parse stop_ffff : bool) (start : Z) (es : list entry) (acc 
   | [] => Next acc (last_end + 1)
   | e :: es' =>
       if orb (e_h e <? start) (e_end e <? e_h e) then Bogus
-      else if andb parse (e_bad e) then Exc
+      else if andb parse (e_bad e) then Exc (-1)
       else if andb stop_ffff (e_end e =? 0xFFFF) then Stop (acc ++ [e])
       else proc_group parse stop_ffff start es' (acc ++ [e]) (e_end e)
   end.
@@ -70,7 +71,7 @@ Fixpoint proc_plain (start : Z) (es : list entry) (acc : list entry) (last_h : Z
   | [] => Next acc (last_h + 1)
   | e :: es' =>
       if e_h e <? start then Bogus
-      else if e_bad e then Exc
+      else if e_bad e then Exc (-1)
       else proc_plain start es' (acc ++ [e]) (e_h e)
   end.
 
@@ -95,7 +96,7 @@ Section Loop.
         | RList es =>
             match proc start es with
             | Bogus => (Abort, S n)
-            | Exc => (Raised (-1), S n)
+            | Exc c => (Raised c, S n)
             | Stop a => (Done (acc ++ a), S n)
             | Next a s' => loop f (S n) s' (acc ++ a)
             end
@@ -117,9 +118,37 @@ Definition discover_services (fuel : nat) (r : nat -> Z -> resp) : outcome * nat
 Definition discover_service (fuel : nat) (r : nat -> Z -> resp) : outcome * nat :=
   loop cond_lt_ffff (fun s es => proc_group false true s es [] 0) false r fuel 0 1 [].
 
-(* Client.discover_included_services(service): Read By Type(0x2802) in [handle, end] *)
-Definition discover_included (fuel : nat) (r : nat -> Z -> resp) (sh se : Z) : outcome * nat :=
-  loop (cond_le se) (fun s es => proc_plain s es [] 0) true r fuel 0 sh [].
+(* Client.discover_included_services(service) after D12e: Read By Type(0x2802) in [handle, end].
+   An include declaration carries the included service's UUID only when it is a 16-bit one
+   (payload [start; end; 2; uuid]); otherwise (payload [start; end]) the client reads the
+   included service's declaration (Read Request on its start handle, no long read) and takes
+   its value as the UUID.  [rd] answers those reads, by handle. *)
+Inductive uresp := UNone | UErr (code : Z) | UVal (len id : Z).    (* the value as (length, integer) *)
+
+Definition uuid_len_ok (l : Z) : bool := orb (orb (l =? 2) (l =? 4)) (l =? 16).
+
+Fixpoint proc_included (rd : Z -> uresp) (start : Z) (es : list entry) (acc : list entry) (last_h : Z) : step_res :=
+  match es with
+  | [] => Next acc (last_h + 1)
+  | e :: es' =>
+      if e_h e <? start then Bogus
+      else if e_bad e then Exc (-1)
+      else match e_data e with
+           | [s; en] =>
+               match rd s with
+               | UNone => Exc (-3)
+               | UErr c => Exc c
+               | UVal l i =>
+                   if uuid_len_ok l
+                   then proc_included rd start es' (acc ++ [mkE (e_h e) (e_end e) false [s; en; l; i]]) (e_h e)
+                   else Exc (-1)
+               end
+           | _ => proc_included rd start es' (acc ++ [e]) (e_h e)
+           end
+  end.
+
+Definition discover_included (fuel : nat) (r : nat -> Z -> resp) (rd : Z -> uresp) (sh se : Z) : outcome * nat :=
+  loop (cond_le se) (fun s es => proc_included rd s es [] 0) true r fuel 0 sh [].
 
 (* one service of Client.discover_characteristics: Read By Type(0x2803) in [handle, end] *)
 Definition discover_chars_loop (fuel : nat) (r : nat -> Z -> resp) (sh se : Z) : outcome * nat :=
@@ -175,7 +204,7 @@ Fixpoint attributes_unfixed (fuel : nat) (r : nat -> Z -> resp) (n : nat) (start
       | RList es =>
           match proc_plain start es [] 0 with
           | Bogus => (Abort, S n)
-          | Exc => (Raised (-1), S n)
+          | Exc c => (Raised c, S n)
           | Stop a => (Done (acc ++ a), S n)
           | Next a _ =>
               match rev (acc ++ a) with
@@ -241,7 +270,7 @@ Definition UUID_CCCD := U16 0x2902.
 
 Inductive abody :=
 | BService (u : uuid)                        (* value: the service UUID *)
-| BInclude (s e : Z) (u : uuid)              (* value: struct.pack('<HH2s', s, e, bytes(uuid)) *)
+| BInclude (s e : Z) (u : uuid)              (* value: start, end and, only for a 16-bit UUID, the UUID *)
 | BCharDecl (props vh : Z) (u : uuid)        (* value: props, value handle, characteristic UUID *)
 | BValue (v : list Z)                        (* characteristic value / descriptor: bytes *)
 | BCccd.                                     (* the CCCD the server adds: value is per bearer *)
@@ -252,21 +281,17 @@ Record attr := mkA { a_handle : Z; a_end : Z; a_type : uuid; a_body : abody }.
 Definition disc_vlen (a : attr) : Z :=
   match a_body a with
   | BService u => u_len u
-  | BInclude _ _ _ => 6
+  | BInclude _ _ u => if u_len u =? 2 then 6 else 4
   | BCharDecl _ _ u => 3 + u_len u
   | BValue v => Z.of_nat (length v)
   | BCccd => 2
   end.
 
-(* what IncludedServiceDeclaration puts after the two handles: the first two bytes of
-   bytes(uuid) ('2s'), which the client reads back as a 16-bit UUID (finding D12e) *)
-Definition incl_seen_uuid (u : uuid) : uuid := mkU 2 (u_id u mod 65536).
-
 (* the payload a client gets out of a discovery entry for this attribute *)
 Definition disc_data (a : attr) : list Z :=
   match a_body a with
   | BService u => [u_len u; u_id u]
-  | BInclude s e u => [s; e; u_len (incl_seen_uuid u); u_id (incl_seen_uuid u)]
+  | BInclude s e u => if u_len u =? 2 then [s; e; 2; u_id u] else [s; e]
   | BCharDecl p vh u => [p; vh; u_len u; u_id u]
   | BValue _ => []
   | BCccd => []
@@ -578,8 +603,51 @@ Definition client_discover_services (mtu : Z) (db : list attr) : outcome * nat :
 Definition client_discover_service (mtu : Z) (db : list attr) (u : uuid) : outcome * nat :=
   discover_service (fuel_for 1) (fun _ s => srv_find_by_type_value mtu db u s 0xFFFF).
 
+(* on_att_read_request on the attribute at handle [h], for the values discovery reads (service
+   declarations: the UUID, never longer than ATT_MTU-1 when ATT_MTU >= 23) *)
+Definition srv_read_uuid (db : list attr) (h : Z) : uresp :=
+  match find (fun a => a_handle a =? h) db with
+  | None => UErr ATT_INVALID_HANDLE
+  | Some a => match a_body a with
+              | BService u => UVal (u_len u) (u_id u)
+              | _ => UVal (disc_vlen a) 0
+              end
+  end.
+
 Definition client_discover_included (mtu : Z) (db : list attr) (sh se : Z) : outcome * nat :=
-  discover_included (fuel_for sh) (fun _ s => srv_read_by_type mtu db UUID_INCLUDE s se) sh se.
+  discover_included (fuel_for sh) (fun _ s => srv_read_by_type mtu db UUID_INCLUDE s se) (srv_read_uuid db) sh se.
+
+(* what the client makes of an include declaration when it resolves reads with [rd] *)
+Definition resolve_entry (rd : Z -> uresp) (e : entry) : entry :=
+  match e_data e with
+  | [s; en] => match rd s with
+               | UVal l i => mkE (e_h e) (e_end e) false [s; en; l; i]
+               | _ => e
+               end
+  | _ => e
+  end.
+
+(* the include declaration as declared: start, end and the included service's UUID *)
+Definition declared_include (a : attr) : entry :=
+  match a_body a with
+  | BInclude s e u => mkE (a_handle a) (a_end a) false [s; e; u_len u; u_id u]
+  | _ => to_entry a
+  end.
+
+(* every attribute of type Include is an include declaration of a service with a 2- or 16-byte
+   UUID, and the attribute at its start handle is a service declaration with that UUID *)
+Definition includes_consistent (db : list attr) : bool :=
+  forallb (fun a => if uuid_eqb (a_type a) UUID_INCLUDE then
+                      match a_body a with
+                      | BInclude s _ u =>
+                          andb (orb (u_len u =? 2) (u_len u =? 16))
+                               (match find (fun b => a_handle b =? s) db with
+                                | Some b => match a_body b with BService u' => uuid_eqb u' u | _ => false end
+                                | None => false
+                                end)
+                      | _ => false
+                      end
+                    else true) db.
 
 Definition client_discover_characteristics (mtu : Z) (db : list attr) (sh se : Z) : outcome * nat :=
   discover_characteristics (fuel_for sh) (fun _ s => srv_read_by_type mtu db UUID_CHARACTERISTIC s se) sh se.
@@ -649,6 +717,14 @@ Definition char_ok (c : char_spec) : bool :=
   andb (andb (uuid_ok (c_uuid c)) (negb (is_decl_type (c_uuid c)))) (forallb desc_ok (c_descs c)).
 Definition svc_ok (s : svc_spec) : bool := andb (uuid_ok (s_uuid s)) (forallb char_ok (s_chars s)).
 Definition specs_ok (ss : list svc_spec) : bool := forallb svc_ok ss.
+
+(* included services are given as indices of services registered before: below the number of
+   services registered so far *)
+Fixpoint incl_idx_ok (n : nat) (ss : list svc_spec) : bool :=
+  match ss with
+  | [] => true
+  | s :: ss' => andb (forallb (fun i => Nat.ltb i n) (s_incl s)) (incl_idx_ok (S n) ss')
+  end.
 
 Fixpoint total_size (ss : list svc_spec) : Z :=
   match ss with [] => 0 | s :: ss' => svc_size s + total_size ss' end.
